@@ -181,6 +181,20 @@ def run_rows(case, ctx):
                             if again.shape != full.shape or not all(
                                     row_equal(full[i], again[i], integer) for i in range(n)):
                                 ctx.violation(K + "%s/repeated-call-differs" % m, "two identical calls differ", cfg=c2)
+                        if ok and isinstance(Q, numpy.ndarray) and Q.dtype == numpy.float64:
+                            # a batch of another floating type in between (float32 sensors): the model answers the
+                            # float64 batch afterwards as it did before
+                            try:
+                                spec.outputs(est, Q.astype(numpy.float32), [m])
+                                spec.outputs(est, numpy.asfortranarray(Q), [m])
+                            except Exception:
+                                ctx.excluded("float32 / Fortran batches refused by this method")
+                            ctx.hit("rows.other_dtype_in_between")
+                            again = spec.outputs(est, Q, [m])[m]
+                            if again.shape != full.shape or not all(
+                                    row_equal(full[i], again[i], integer) for i in range(n)):
+                                ctx.violation(K + "%s/repeated-call-differs/after-float32-batch" % m, "the same float64 "
+                                              "batch is answered differently after a float32 batch was served", cfg=c2)
                         if ok and isinstance(Q, numpy.ndarray) and n >= 2:
                             # the same array object, refilled in place between two calls (a preallocated batch
                             # buffer): the answer follows the content, not the identity of the container
